@@ -144,7 +144,11 @@ def check(inp):
             bad("median_period", "is-a-member-row[repeated-periods]")
     # negative integer keys count from the end; an EMPTY selection is still a table with the same names, units and metadata
     for k in range(-n, n):
-        rowk = s[k]
+        try:
+            rowk = s[k]
+        except Exception as e:  # noqa: BLE001
+            bad("__getitem__", "source-table-keeps-units-and-metadata-after-selections[call-history]", key=k, error=repr(e)[:200])
+            return fails
         if len(rowk) != 1 or any(float(np.atleast_1d(rowk[c].value)[0]) != float(s[c].value[k]) for c in s.par_names) or rowk.t_ref != tref:
             bad("__getitem__", "integer-key-returns-that-member-row", key=k, rows=len(rowk))
             break
@@ -170,4 +174,25 @@ def check(inp):
         Ps = sorted(Pd)
         if abs(mp["P"].to_value(u.day)[0] - Ps[n // 2]) > 1e-9:
             bad("median_period", "is-the-median-period-row")
+    # ... and after all of these the SOURCE table still is what it was (a selection must not take the metadata away from its parent)
+    try:
+        if not meta_ok(s) or not meta_ok(s[0:1]) or not meta_ok(s.median_period()):
+            bad("__getitem__", "source-table-keeps-units-and-metadata-after-selections[call-history]")
+    except Exception as e:  # noqa: BLE001
+        bad("__getitem__", "source-table-keeps-units-and-metadata-after-selections[call-history]", error=repr(e)[:200])
+    # a quadratic trend: v2 is a velocity per time**2; the table and everything derived from it keep poly_trend = 3 and the unit of v2
+    try:
+        q = JokerSamples(t_ref=tref, poly_trend=3, n_offsets=0)
+        for k in s.par_names:
+            q[k] = s[k]
+        q["v2"] = np.array([1e-4 * (i + 1) for i in range(n)]) * u.km / u.s / u.day ** 2
+        for name, v in {"int": q[0], "slice": q[0:1], "copy": q.copy(), "mean": q.mean(), "median_period": q.median_period()}.items():
+            if v.poly_trend != 3 or v["v2"].unit != q["v2"].unit or v.t_ref != tref:
+                bad("__getitem__" if name in ("int", "slice") else name, "units-and-metadata-kept[poly_trend=3]", view=name)
+        blk, un = q.pack(nonlinear_only=False)
+        back = JokerSamples.unpack(blk, un, t_ref=tref, poly_trend=3, n_offsets=0)
+        if list(back.par_names) != list(q.par_names) or not np.allclose(back["v2"].to_value(q["v2"].unit), q["v2"].value, rtol=1e-13, atol=0):
+            bad("unpack", "pack-then-unpack-reproduces-names-units-values[poly_trend=3]")
+    except Exception as e:  # noqa: BLE001
+        bad("__init__", "table-with-a-quadratic-trend-accepted[poly_trend=3]", error=repr(e)[:200])
     return fails
